@@ -1,7 +1,95 @@
 (* Test-case dispatch for model G, part 2 (queries and surgery: C17, C18). Opcodes 20-59. *)
-From AJ Require Import Common.Util Graph.GModel Extract.Codec Extract.GCases.
+From AJ Require Import Common.Util Graph.GModel Graph.Queries Graph.Surgery Graph.GSpecs2
+  Extract.Codec Extract.GCases.
+
+(* forever flags, one number per id *)
+Definition rd_flags : reader (nat -> bool) :=
+  l <- rd_nats ;; ret (fun j => negb (Nat.eqb (nth j l 0) 0)).
+
+Definition en_rmap (n : nat) (f : rmap) : list N := en_list en_nats (map f (seqn n)).
+
+Definition en_clos (r : list nat * bool) : list N := en_bool (snd r) ++ en_nats (fst r).
 
 Definition run_gcase2 (op : N) : reader (list N) :=
   match op with
+  (* ---- C17: model outputs ---- *)
+  | 20%N => (* _neighbours over a given attribute map: members, map, starts *)
+      ms <- rd_nats ;; nf <- rd_rmap ;; starts <- rd_nats ;;
+      ret (en_nats (nbrs (snd nf) ms starts))
+  | 21%N => (* _backlinks: members, required, _s_successors before -> _s_successors after *)
+      ms <- rd_nats ;; nr <- rd_rmap ;; ns <- rd_rmap ;;
+      ret (en_rmap (fst nr) (backlinks ms (snd nr) (snd ns)))
+  | 22%N => (* successors: members, required, _s_successors, compute_backlinks, starts *)
+      ms <- rd_nats ;; nr <- rd_rmap ;; ns <- rd_rmap ;; cb <- rd_bool ;; starts <- rd_nats ;;
+      ret (en_nats (fst (successors ms (snd nr) (snd ns) cb starts)))
+  | 23%N => (* predecessors_upstream: members, required, starts -> fuel ok, closure *)
+      ms <- rd_nats ;; nr <- rd_rmap ;; starts <- rd_nats ;;
+      ret (en_clos (closure (snd nr) ms starts))
+  | 24%N => (* successors_downstream: members, required, _s_successors, compute_backlinks, starts *)
+      ms <- rd_nats ;; nr <- rd_rmap ;; ns <- rd_rmap ;; cb <- rd_bool ;; starts <- rd_nats ;;
+      ret (en_clos (closure (if cb then backlinks ms (snd nr) (snd ns) else snd ns) ms starts))
+  | 25%N => (* entry_jobs *)
+      ms <- rd_nats ;; nr <- rd_rmap ;;
+      ret (en_nats (entry_jobs ms (snd nr)))
+  | 26%N => (* exit_jobs: members, required, _s_successors, forever flags, discard, backlinks *)
+      ms <- rd_nats ;; nr <- rd_rmap ;; ns <- rd_rmap ;; fv <- rd_flags ;;
+      discard <- rd_bool ;; cb <- rd_bool ;;
+      ret (en_nats (exit_jobs ms (snd nr) (snd ns) fv discard cb))
+  | 27%N => (* iterate_jobs: tree, scan_schedulers *)
+      t <- rd_tree_top ;; scan <- rd_bool ;;
+      ret (en_nats (iter_jobs scan t))
+  (* ---- C17: the statement on given outputs ---- *)
+  | 30%N =>
+      ms <- rd_nats ;; nr <- rd_rmap ;; starts <- rd_nats ;; out <- rd_nats ;;
+      ret (en_bool (c17_pred_spec_b ms (snd nr) starts out))
+  | 31%N =>
+      ms <- rd_nats ;; nr <- rd_rmap ;; starts <- rd_nats ;; out <- rd_nats ;;
+      ret (en_bool (c17_succ_spec_b ms (snd nr) starts out))
+  | 32%N =>
+      ms <- rd_nats ;; nr <- rd_rmap ;; ns <- rd_rmap ;;
+      ret (en_bool (c17_backlinks_spec_b ms (snd nr) (snd ns)))
+  | 33%N =>
+      ms <- rd_nats ;; nr <- rd_rmap ;; starts <- rd_nats ;; out <- rd_nats ;;
+      ret (en_bool (c17_up_spec_b ms (snd nr) starts out))
+  | 34%N =>
+      ms <- rd_nats ;; nr <- rd_rmap ;; starts <- rd_nats ;; out <- rd_nats ;;
+      ret (en_bool (c17_down_spec_b ms (snd nr) starts out))
+  | 35%N =>
+      ms <- rd_nats ;; nr <- rd_rmap ;; out <- rd_nats ;;
+      ret (en_bool (c17_entry_spec_b ms (snd nr) out))
+  | 36%N =>
+      ms <- rd_nats ;; nr <- rd_rmap ;; fv <- rd_flags ;; discard <- rd_bool ;; out <- rd_nats ;;
+      ret (en_bool (c17_exit_spec_b ms (snd nr) fv discard out))
+  | 37%N =>
+      t <- rd_tree_top ;; scan <- rd_bool ;; out <- rd_nats ;;
+      ret (en_bool (c17_iter_spec_b t scan out))
+  (* ---- C18: model outputs ---- *)
+  | 40%N => (* bypass_and_remove: members, required, job *)
+      ms <- rd_nats ;; nr <- rd_rmap ;; j <- rd_nat ;;
+      ret (match bypass ms (snd nr) j with
+           | None => [0%N]
+           | Some (ms', rq') => 1%N :: en_nats ms' ++ en_rmap (fst nr) rq'
+           end)
+  | 41%N => (* keep_only: scheduler id, pool of subtrees, members, required, remains *)
+      i <- rd_nat ;; pool <- rd_list rd_tree_top ;; ms <- rd_nats ;; nr <- rd_rmap ;;
+      remains <- rd_nats ;;
+      let '(ms', rq') := keep_only_t i pool ms (snd nr) remains in
+      ret (en_nats ms' ++ en_rmap (fst nr) rq')
+  | 42%N => (* keep_only_between *)
+      i <- rd_nat ;; pool <- rd_list rd_tree_top ;; ms <- rd_nats ;; nr <- rd_rmap ;;
+      ns <- rd_rmap ;; starts <- rd_nats ;; ends <- rd_nats ;; ks <- rd_bool ;; ke <- rd_bool ;;
+      let '(ms', rq') := keep_only_between_t i pool ms (snd nr) (snd ns) starts ends ks ke in
+      ret (en_nats ms' ++ en_rmap (fst nr) rq')
+  (* ---- C18: the statement on given outputs ---- *)
+  | 50%N =>
+      ms <- rd_nats ;; nr <- rd_rmap ;; j <- rd_nat ;; ms' <- rd_nats ;; nr' <- rd_rmap ;;
+      ret (en_bool (c18_bypass_spec_b (fst nr) ms (snd nr) j ms' (snd nr')))
+  | 51%N =>
+      ms <- rd_nats ;; nr <- rd_rmap ;; remains <- rd_nats ;; ms' <- rd_nats ;; nr' <- rd_rmap ;;
+      ret (en_bool (c18_keep_only_spec_b ms (snd nr) remains ms' (snd nr')))
+  | 52%N =>
+      ms <- rd_nats ;; nr <- rd_rmap ;; starts <- rd_nats ;; ends <- rd_nats ;;
+      ks <- rd_bool ;; ke <- rd_bool ;; ms' <- rd_nats ;; nr' <- rd_rmap ;;
+      ret (en_bool (c18_between_spec_b ms (snd nr) starts ends ks ke ms' (snd nr')))
   | _ => fun _ => None
   end.
